@@ -788,6 +788,7 @@ pub fn main(args: Args) {
     );
 
     // ---------------- (b) end to end
+    REDUCTIONS_LEFT.store(args.budget("max_reductions", 200, 1500) as i64, std::sync::atomic::Ordering::Relaxed);
     let n_e2e = if do_e2e { args.budget("expressions", 3000, 300_000) } else { 0 };
     let run2 = run.clone();
     par_cases(
@@ -854,6 +855,8 @@ fn absorb(run: &Run, arm: &str, i: u64, r: Result<ApiStats, vcommon::pool::Panic
     }
 }
 
+static REDUCTIONS_LEFT: std::sync::atomic::AtomicI64 = std::sync::atomic::AtomicI64::new(i64::MAX);
+
 fn report_e2e(run: &Run, i: u64, c: &E2eCase, o: &E2eOut) {
     match o.status.as_str() {
         "ok" => {}
@@ -911,6 +914,11 @@ fn report_e2e(run: &Run, i: u64, c: &E2eCase, o: &E2eOut) {
         return;
     }
     run.count("e2e_mismatches_observed", 1);
+    if REDUCTIONS_LEFT.fetch_sub(1, std::sync::atomic::Ordering::Relaxed) <= 0 {
+        // reductions re-run the analyzer up to 200 times each; beyond the cap mismatches are only counted
+        run.count("e2e_mismatches_beyond_max_reductions_counted_only", 1);
+        return;
+    }
     let (m, sig) = e2e_reduce(c);
     let c2 = m.clone();
     let mo = fresh_thread(STACK_64M, move || run_e2e(&c2)).ok();
